@@ -5,6 +5,8 @@ import (
 	"github.com/openconfig/ygot/ygot"
 	"github.com/openconfig/ygot/zzverif/lib"
 	"math/rand"
+	"reflect"
+	"strings"
 )
 
 func init() { Monitors["C32"] = runC32 }
@@ -55,6 +57,9 @@ func runC32(r *lib.Run) {
 			opt.OrderedSiblings = true
 			opt.Unkeyed = i%2 == 0
 			opt.Density = 0.7
+			// representation classes: set-but-empty lists, leaf-lists and binaries (what Unmarshal
+			// produces from "x": [] and "x": "")
+			opt.EmptyLists, opt.EmptyLeafLists, opt.ZeroLenBinary = i%2 == 1, i%2 == 1, i%2 == 1
 			t := lib.NewGen(cfg, r.Seed, i, opt).Tree()
 			before := cfg.Observe(t)
 			want := lib.NewObs()
@@ -134,6 +139,32 @@ func runC32(r *lib.Run) {
 				}
 				r.Violate(cl, scope+":"+featOf(d), d.String(), w)
 			}
+			// set-but-empty collections hold no leaf, but are rendered ("alarm": []): a config-false one
+			// must be gone as well
+			for _, nd := range cfg.Nodes(t) {
+				if scope == "subtree" && !lib.ElemsUnder(nd.Path, scopePath) {
+					continue
+				}
+				for _, f := range nd.Info.Fields {
+					fv := nd.V.Elem().Field(f.Idx)
+					if (fv.Kind() != reflect.Map && fv.Kind() != reflect.Slice) || fv.IsNil() || fv.Len() != 0 {
+						continue
+					}
+					var dn []string
+					for _, e := range nd.Path {
+						dn = append(dn, e.Name)
+					}
+					dn = append(dn, f.Path...)
+					ge := gy.Find(dn)
+					if ge == nil || configOf(ge) || (cfg.Compressed && hasConfigCounterpart(gy, dn)) {
+						continue
+					}
+					bad = true
+					kind := map[lib.Kind]string{lib.KLeaf: "binary", lib.KLeafList: "leaf-list", lib.KList: "list"}[f.Kind]
+					r.Violate("config-false-data-remains", scope+":empty-"+kind, "a set-but-empty config-false "+kind+" is still set after pruning: /"+strings.Join(dn, "/"), w)
+				}
+			}
+			r.Hit("empty-collections-checked")
 			if !bad {
 				r.Hit("pruned-ok")
 				r.Hit("pruned-ok:" + scope)
